@@ -16,6 +16,7 @@ pub fn gen_ep(r: &mut Prng) -> EpCfg {
         bind_buf: 0,
         retries: 3,
         ids: vec![],
+        keepalive_ms: [0, 0],
     }
 }
 pub fn gen_link(r: &mut Prng) -> LinkCfg {
